@@ -104,7 +104,7 @@ def build_run_contract(ex, prop):
                               "terminated or killed by a client's request or failure - except the context a delete request names")
 
     main = Loop(invariant=['lsock.open', server.was_child_inv],
-                modifies=['self.children', 'self.contexts', 'ghost:was_child', 'abs:Conn.inq', 'abs:Conn.ipos', 'abs:Conn.out', 'abs:Conn.open', 'abs:Conn.peer_closed',
+                modifies=['self.children', 'self.contexts', 'ghost:was_child', 'ghost:none_header_received', 'abs:Conn.inq', 'abs:Conn.ipos', 'abs:Conn.out', 'abs:Conn.open', 'abs:Conn.peer_closed',
                           'abs:RCtx.calls', 'abs:RCtx.waited', 'abs:RCtx.alive', 'abs:RCtx.terminated', 'abs:RCtx.killed', 'abs:RCtx.term_raised'],
                 locals={})
     main.step = [client_settled, context_transition, only_new_child]
@@ -144,8 +144,9 @@ def build_run_contract(ex, prop):
     def stops_only_on_request(c):
         ex_ = c.ex
         a = ex_.heap[c.env['self'].addr].attrs
-        return z3.Or(ex_.ghost['terminate_requested'], a['close_on_none'].e)
-    stops_only_on_request.__doc__ = 'the accept loop ends only on a terminate request or, when close_on_none is set, on a None header - never because of a client'
+        return z3.Or(ex_.ghost['terminate_requested'], z3.And(a['close_on_none'].e, ex_.ghost['none_header_received']))
+    stops_only_on_request.__doc__ = ('the accept loop ends only on a terminate request or, when close_on_none is set, because the last client SENT the header None - '
+                                     'never because a client failed (a client that hangs up without sending a header has not asked for anything)')
 
     opts = dict(server.OPTIONS)
     opts['chan_elem_inv'] = {f'cli#{i}': server.header_inv for i in range(4)}
@@ -323,6 +324,7 @@ def build(ex):
 
 
 MUTANTS = [
+    ('pyworkers/remote_server.py', "                    logger.info('Client disconnected before sending a request')\n                    continue", "                    logger.info('Client disconnected before sending a request')\n                    header = None", 'a client that hangs up before its header is treated as the None request (stops a close_on_none server)'),
     ('pyworkers/remote.py', "            state = self.__dict__.copy()\n            state['_from_remote_parent'] = True", "            state = self.__dict__\n            state['_from_remote_parent'] = True", 'sending a worker scrubs the parent object itself (its socket and thread are lost)'),
     ('pyworkers/remote.py', "            state['_socket'] = None # _socket will be injected by the server on the remote side\n", "", 'the parent\'s data socket travels with the request'),
     ('pyworkers/remote.py', "            if incoming not in ready:\n                incoming.close()\n                raise ConnectionClosedError()\n", "", 'the control accept is entered although only the data socket became readable'),
